@@ -99,8 +99,8 @@ def gate_case(bits, source, tty, answers, ci_idx=0, pycharm=False, xd=0, xfail=F
     F_src = {n for n, b in zip(NAMES, bits) if b}
     cli = flagstr if source == "cli" else None
     env = flagstr if source == "env" else None
-    nproc = None if xd == 0 else (0 if xd == 1 else 2)
-    xdist = xd == 2
+    nproc = None if xd == 0 else (0 if xd == 1 else (2 if xd == 2 else "worker"))
+    xdist = xd >= 2
     ci_var = None
     for k, name in enumerate(CI_VARS):
         if ci_idx == k + 1:
@@ -217,6 +217,13 @@ def conditions(tier):
                 fn = mkfn(name, [("tty", "bool"), ("ci", "int"), ("pyc", "bool"), ("xd", "int"), ("xf", "bool")] + ANS, body, GLB,
                           pre=[f"0 <= ci <= 12 and xd == {xdv} and xf == {xfv} and pyc == {pycv}", "ci != 0 or xd == 2 or xf"])
                 conds.append(Cond(name, fn, timeout=1200, group="deactivate", bounds=f"--inline-snapshot=review with every CI variable, numprocesses={[None, 0, 2][xdv]}, xfail={xfv}, PYCHARM_HOSTED={pycv} and all answers"))
+    for source in ("default", "env"):
+        for pp in PYPROJECTS:
+            name = f"xdist_worker_{source}_{pp}"
+            body = f"return gate_case({BITL}, {source!r}, tty, [False] * 4, 0, False, 3, False, {pp!r})"
+            pre = ["not b5 and not b6 and not b7"] + (["not (b0 or b1 or b2 or b3 or b4)"] if source == "default" else [])
+            conds.append(Cond(name, mkfn(name, BITS + [("tty", "bool")], body, GLB, pre=pre), timeout=600, group="deactivate",
+                              bounds=f"config of an xdist *worker* process (numprocesses None, workerinput set), flags from {source}, pyproject `{pp}`"))
     # Group C: pyproject defaults, shortcut, env overriding defaults but not the CLI
     for pp in PYPROJECTS:
         name = f"defaults_{pp}"
